@@ -435,13 +435,11 @@ End SeqP.
 Lemma Zeqb_spec x y : Z.eqb x y = true <-> x = y.
 Proof. apply Z.eqb_eq. Qed.
 
-(* The encodings/operations outside the claim: join and repeat are not offered
-   for byte arrays by the implementation (they fail with an error; recorded as
-   known findings). *)
+(* The encoding/operation outside the claim: join is not offered for byte arrays by
+   the implementation (it fails with an error; recorded as a known finding). *)
 Definition supported (e : enc) (c : scall) : bool :=
   match e, c with
   | EBytes, CJoin j (p :: ps) => is_nil j && forallb is_nil (p :: ps)
-  | EBytes, CRepeat _ (_ :: _) => false
   | _, _ => true
   end.
 
